@@ -13,13 +13,38 @@ Theorem C28_rs_linearize_is_derivative : forall betas x h : list Q, length x = l
 Proof. exact rs_linearize_is_derivative. Qed.
 Print Assumptions C28_rs_linearize_is_derivative.
 
-(* ResponseSurface reproduces a quadratic, given a certified fit (partial: see level_note). *)
-Theorem C28_rs_reproduces_quadratic_partial : forall (n : nat) (train : list (list Q)) (betas bstar : list Q),
-  unisolvent n train ->
-  (forall x, In x train -> rs_predict betas x == rs_predict bstar x) ->
-  forall x, length x = n -> rs_predict betas x == rs_predict bstar x.
-Proof. exact rs_reproduces_quadratic_partial. Qed.
-Print Assumptions C28_rs_reproduces_quadratic_partial.
+(* A least-squares solution -- a minimiser of the sum of squared residuals, which is what numpy.linalg.lstsq
+   returns -- fits the data exactly whenever an exact fit exists (any matrix X, any data). *)
+Theorem C28_lsq_minimiser_fits : forall (X : list (list Q)) (y b bstar : list Q),
+  length X = length y -> fits X y bstar ->
+  (forall b', sse X y b <= sse X y b') ->
+  fits X y b.
+Proof. exact lsq_minimiser_fits. Qed.
+Print Assumptions C28_lsq_minimiser_fits.
+
+(* ... and so does every solution of the normal equations X^T (X b - y) = 0. *)
+Theorem C28_normal_equations_fit : forall (X : list (list Q)) (y b bstar : list Q),
+  length X = length y -> fits X y bstar -> normal_equations X y b -> fits X y b.
+Proof. exact normal_equations_fit. Qed.
+Print Assumptions C28_normal_equations_fit.
+
+(* ResponseSurface reproduces any quadratic exactly: for every number of inputs n, training inputs xs whose
+   design matrix has full column rank on quadratics ([unisolvent]), responses of the quadratic with
+   coefficients bstar and coefficients b returned by a least-squares solve, predict b = the quadratic. *)
+Theorem C28_rs_reproduces_quadratic : forall (n : nat) (xs : list (list Q)) (b bstar : list Q),
+  unisolvent n xs ->
+  (forall b', sse (design_matrix xs) (map (rs_predict bstar) xs) b
+              <= sse (design_matrix xs) (map (rs_predict bstar) xs) b') ->
+  forall x, length x = n -> rs_predict b x == rs_predict bstar x.
+Proof. exact rs_reproduces_quadratic. Qed.
+Print Assumptions C28_rs_reproduces_quadratic.
+
+Theorem C28_rs_reproduces_quadratic_normal_eq : forall (n : nat) (xs : list (list Q)) (b bstar : list Q),
+  unisolvent n xs ->
+  normal_equations (design_matrix xs) (map (rs_predict bstar) xs) b ->
+  forall x, length x = n -> rs_predict b x == rs_predict bstar x.
+Proof. exact rs_reproduces_quadratic_normal_eq. Qed.
+Print Assumptions C28_rs_reproduces_quadratic_normal_eq.
 
 (* Distance-weighted nearest neighbours return the training output at a training input. *)
 Theorem C28_nn_weighted_interpolates : forall p ds1 d ds2 vs1 vs2 y tvr tvm,
